@@ -43,6 +43,8 @@ class Hook(object):
         self.kw.append(kw)
         o = self.outcome if i >= self.from_call else TRUE
         if o == RAISE:
+            if rt.S.get('bare'):
+                raise AssertionError()         # an exception WITHOUT a message (a bare `assert`, `raise RuntimeError`): args == ()
             raise RuntimeError('hook %s raised (scripted)' % self.name)
         return o == TRUE
 
@@ -295,13 +297,14 @@ def plan(tier):
     q = tier == 'quick'
     start_sh = [{'maxhooks': 2 if q else 4, 'n0': 2, 'beh': 0}, {'maxhooks': 1 if q else 2, 'n0': 2, 'beh': 2},
                 {'maxhooks': 1, 'n0': 3, 'beh': 0}, {'maxhooks': 1 if q else 2, 'n0': 2, 'beh': 0, 'bsig': FALSE},
-                {'maxhooks': 1, 'n0': 2, 'beh': 0, 'bsig': RAISE}]
+                {'maxhooks': 1, 'n0': 2, 'beh': 0, 'bsig': RAISE}, {'maxhooks': 1 if q else 2, 'n0': 2, 'beh': 0, 'bare': True}]
     mh = 2 if q else 4
-    stop_sh = [{'ri': i, 'beh': 0, 'maxhooks': mh} for i in range(len(REQS))] + [{'ri': i, 'beh': 2, 'maxhooks': mh} for i in (0, 1, 5)]
+    stop_sh = [{'ri': i, 'beh': 0, 'maxhooks': mh} for i in range(len(REQS))] + [{'ri': i, 'beh': 2, 'maxhooks': mh} for i in (0, 1, 5)] + \
+        [{'ri': i, 'beh': 0, 'maxhooks': 1, 'bare': True} for i in (0, 2)]
     return [
         Cond('c14_start', shards=start_sh, budget=240 if q else 2400, twins=2,
              bounds={'c1..c4': 'S: {true,false,raise} x {ignore flag} per start-phase hook (quick: at most 2 non-default hooks at a time; '
-                     'thorough: all 1296 assignments)', 'fc': 'S{from the first call, from the second call}', 'workers': 'S{obedient, stubborn}', 'bsig': 'S: additionally a before_signal hook that returns false / raises'}),
+                     'thorough: all 1296 assignments)', 'fc': 'S{from the first call, from the second call}', 'workers': 'S{obedient, stubborn}', 'bsig': 'S: additionally a before_signal hook that returns false / raises', 'bare': 'S: raising hooks raise an exception without a message'}),
         Cond('c14_stop', shards=stop_sh, budget=240 if q else 1200, twins=2,
              bounds={'c1..c4': 'S: assignments to before_stop, after_stop, before_signal, after_signal (quick: at most two non-default at a time; thorough: all 1296)', 'request': 'S%r' % (REQS,)}),
     ]
